@@ -1,11 +1,13 @@
 package main
 
 import (
+	"bytes"
 	"encoding/json"
 	"fmt"
 	"math"
 	"math/rand"
 	"sort"
+	"strconv"
 	"strings"
 
 	"github.com/oapi-codegen/oapi-codegen/v2/pkg/codegen"
@@ -140,6 +142,21 @@ var c07AllOf = map[string]any{
 		map[string]any{"type": "object", "properties": map[string]any{"name": map[string]any{"type": "string"}}, "additionalProperties": map[string]any{"type": "integer"}}}},
 	"AllOfPlain": map[string]any{"allOf": []any{map[string]any{"$ref": "#/components/schemas/Leaf"},
 		map[string]any{"type": "object", "properties": map[string]any{"name": map[string]any{"type": "string"}}}}},
+	// unions (their algebra is C09's): here only decode-then-encode of instances with boundary numbers
+	"OneOfPlain": map[string]any{"oneOf": []any{map[string]any{"$ref": "#/components/schemas/Leaf"}, map[string]any{"$ref": "#/components/schemas/Other"}}},
+	"AnyOfPlain": map[string]any{"anyOf": []any{map[string]any{"$ref": "#/components/schemas/Leaf"}, map[string]any{"$ref": "#/components/schemas/Other"}}},
+	"OneOfFixed": map[string]any{"type": "object", "properties": map[string]any{"name": map[string]any{"type": "string"}},
+		"oneOf": []any{map[string]any{"$ref": "#/components/schemas/Leaf"}, map[string]any{"$ref": "#/components/schemas/Other"}}},
+	"Other": map[string]any{"type": "object", "required": []string{"w"}, "properties": map[string]any{"w": map[string]any{"type": "integer", "format": "int64"}, "v": map[string]any{"type": "number"}}},
+}
+
+func declared(s mSchema, name string) bool {
+	for _, f := range s.Fields {
+		if f.Name == name {
+			return true
+		}
+	}
+	return false
 }
 
 func zeroOf(kind string) any {
@@ -160,12 +177,60 @@ func zeroOf(kind string) any {
 	return nil
 }
 
+// canon renders a value as canonical JSON (sorted keys) WITHOUT passing numbers through float64: an integer
+// beyond 2^53 keeps every digit, so a narrowed number is a difference.
 func canon(v any) string {
 	b, _ := json.Marshal(v)
-	var x any
-	_ = json.Unmarshal(b, &x)
+	x, err := decodeExact(b)
+	if err != nil {
+		return string(b)
+	}
 	b2, _ := json.Marshal(x)
 	return string(b2)
+}
+
+// decodeExact decodes JSON keeping numbers as text; the text is normalised (integers as written, everything
+// else as the shortest float64 rendering) so that 1.0 / 1 / 1e0 compare equal and 2^63-1 / 2^63 do not.
+func decodeExact(b []byte) (any, error) {
+	d := json.NewDecoder(bytes.NewReader(b))
+	d.UseNumber()
+	var x any
+	if err := d.Decode(&x); err != nil {
+		return nil, err
+	}
+	return normNumbers(x), nil
+}
+
+func normNumbers(x any) any {
+	switch v := x.(type) {
+	case json.Number:
+		t := string(v)
+		if !strings.ContainsAny(t, ".eE") {
+			if t == "-0" {
+				return json.Number("0")
+			}
+			return v
+		}
+		f, err := strconv.ParseFloat(t, 64)
+		if err != nil {
+			return v
+		}
+		if f == math.Trunc(f) && math.Abs(f) < 1e15 {
+			return json.Number(strconv.FormatInt(int64(f), 10))
+		}
+		return json.Number(strconv.FormatFloat(f, 'g', -1, 64))
+	case map[string]any:
+		for k, e := range v {
+			v[k] = normNumbers(e)
+		}
+		return v
+	case []any:
+		for i, e := range v {
+			v[i] = normNumbers(e)
+		}
+		return v
+	}
+	return x
 }
 
 func coqJObj(m map[string]any) (string, bool) {
@@ -293,11 +358,11 @@ func runC07(r *Report, rng *rand.Rand, thorough bool) {
 						case "map":
 							inst[name] = []map[string]any{{"p": "1"}, {"q": "2"}, {"p": "3", "r": "4"}, {}}[rng.Intn(4)]
 						case "any":
-							inst[name] = []any{"s", 1.5, map[string]any{"n": []int{1, 2}}, true}[rng.Intn(4)]
+							inst[name] = []any{"s", 1.5, map[string]any{"n": []int{1, 2}}, true, int64(9007199254740993)}[rng.Intn(5)]
 						case "string":
 							inst[name] = mStrings[rng.Intn(len(mStrings))]
 						case "int":
-							inst[name] = rng.Intn(1000)
+							inst[name] = []int64{int64(rng.Intn(1000)), int64(rng.Intn(1000)), math.MaxInt64, math.MinInt64, 9007199254740993}[rng.Intn(5)]
 						}
 					}
 				}
@@ -329,6 +394,20 @@ func runC07(r *Report, rng *rand.Rand, thorough bool) {
 					addl = "int"
 				case "AllOfPlain":
 					addl = ""
+				case "OneOfPlain", "AnyOfPlain", "OneOfFixed", "Other":
+					addl = ""
+					big := []int64{math.MaxInt64, math.MinInt64, 9007199254740993, 1 << 53, -1}
+					if k%2 == 0 {
+						inst = map[string]any{"x": mStrings[rng.Intn(len(mStrings))], "y": big[rng.Intn(len(big))]}
+					} else {
+						inst = map[string]any{"w": big[rng.Intn(len(big))], "v": []float64{0.1, 1e21, 5e-324, -2.5}[rng.Intn(4)]}
+					}
+					if tn == "OneOfFixed" {
+						inst["name"] = mStrings[rng.Intn(len(mStrings))]
+					}
+					if tn == "Other" {
+						inst = map[string]any{"w": big[rng.Intn(len(big))]}
+					}
 				}
 				b, _ := json.Marshal(inst)
 				id := fmt.Sprintf("%s/%s/%d", pkg, tn, k)
@@ -357,8 +436,9 @@ func runC07(r *Report, rng *rand.Rand, thorough bool) {
 			r.Violate("valid_instance_rejected", fmt.Sprintf("schema %v instance %s: %s", m.s, canon(m.inst), res.Err), replay)
 			continue
 		}
-		var out map[string]any
-		if err := json.Unmarshal(res.Out[0], &out); err != nil {
+		outAny, err := decodeExact(res.Out[0]) // numbers keep their text: 2^63-1 must not come back as 2^63
+		out, isObj := outAny.(map[string]any)
+		if err != nil || !isObj {
 			r.Violate("output_not_an_object", string(res.Out[0]), replay)
 			continue
 		}
@@ -392,21 +472,40 @@ func runC07(r *Report, rng *rand.Rand, thorough bool) {
 		sort.Strings(problems)
 		if len(problems) > 0 {
 			sig := "json_roundtrip/addl=" + m.s.Addl + fmt.Sprintf("/nullable-type=%v", m.nt)
-			// the refuted clause: explicit null of an optional nullable member of a type with additional properties
-			onlyNullDrop := m.s.Addl != "" && !m.nt
+			// two recorded classes; a problem outside both makes the whole case a plain violation
+			//  A: explicit null of an optional nullable member of a type with additional properties is dropped (refuted clause)
+			//  B: untyped additional members are held as interface{}: encoding/json decodes their numbers as float64
+			var inA, inB []string
+			other := false
 			for _, p := range problems {
-				ok := false
+				a, b := false, false
 				for _, f := range m.s.Fields {
-					if p == "member "+f.Name+" lost" && !f.Required && f.Nullable && m.inst[f.Name] == nil {
-						ok = true
+					if m.s.Addl != "" && !m.nt && p == "member "+f.Name+" lost" && !f.Required && f.Nullable && m.inst[f.Name] == nil {
+						a = true
 					}
 				}
-				if !ok {
-					onlyNullDrop = false
+				for k, v := range m.inst {
+					if n, isInt := v.(int64); isInt && m.s.Addl == "any" && (n > 1<<53 || n < -(1<<53)) && strings.HasPrefix(p, "member "+k+" changed") && !declared(m.s, k) {
+						b = true
+					}
+				}
+				switch {
+				case a:
+					inA = append(inA, p)
+				case b:
+					inB = append(inB, p)
+				default:
+					other = true
 				}
 			}
-			if onlyNullDrop {
-				sig = "explicit_null_of_optional_nullable_dropped_with_additional_properties"
+			if !other {
+				if len(inA) > 0 {
+					r.Violate("explicit_null_of_optional_nullable_dropped_with_additional_properties", fmt.Sprintf("schema %v instance %s -> %s: %s", m.s, canon(m.inst), canon(out), strings.Join(inA, "; ")), replay)
+				}
+				if len(inB) > 0 {
+					r.Violate("untyped_additional_member_integer_beyond_2_53_narrowed", fmt.Sprintf("schema %v instance %s -> %s: %s", m.s, canon(m.inst), canon(out), strings.Join(inB, "; ")), replay)
+				}
+				continue
 			}
 			r.Violate(sig, fmt.Sprintf("schema %v instance %s -> %s: %s", m.s, canon(m.inst), canon(out), strings.Join(problems, "; ")), replay)
 			continue
@@ -433,5 +532,5 @@ func runC07(r *Report, rng *rand.Rand, thorough bool) {
 	}
 	ccases.WriteTo(r)
 	// ---- number without format is float32 (documented): a value needing more precision is narrowed
-	r.Rule = "object schemas from a grammar (1-5 members: required/optional x nullable x {string, int, int64, double, bool, date, array, map, referenced object}, some readOnly/writeOnly; additionalProperties absent / true / string / integer / array of integers / object with optional members / map of strings, with 0-3 additional members) x {default, nullable-type, disable-required-readonly-as-pointer}, plus four merged (allOf) types whose members differ in what they allow for unknown members, generated and compiled; valid instances from a schema-directed generator (one instance per schema with zero values in every required member, explicit nulls, absent optionals, empty arrays/maps, 64-bit extremes, float64 edge values, escaped and non-ASCII strings, extra members of the additional type) unmarshalled into the generated type and marshalled again; semantic JSON equality modulo the documented exception (oracle) and the model's re-encoded object (Coq); non-trivial = instance with at least two members"
+	r.Rule = "object schemas from a grammar (1-5 members: required/optional x nullable x {string, int, int64, double, bool, date, array, map, referenced object}, some readOnly/writeOnly; additionalProperties absent / true / string / integer / array of integers / object with optional members / map of strings, with 0-3 additional members) x {default, nullable-type, disable-required-readonly-as-pointer}, plus four merged (allOf) types whose members differ in what they allow for unknown members and three union types (oneOf / anyOf / oneOf with an own property) with 64-bit extremes inside the stored member, generated and compiled; valid instances from a schema-directed generator (one instance per schema with zero values in every required member, explicit nulls, absent optionals, empty arrays/maps, 64-bit extremes, float64 edge values, escaped and non-ASCII strings, extra members of the additional type) unmarshalled into the generated type and marshalled again; semantic JSON equality modulo the documented exception (oracle) and the model's re-encoded object (Coq); non-trivial = instance with at least two members"
 }
